@@ -27,6 +27,8 @@ CONFIG = {
 
 def generate(rng, tier):
     env = gen.gen_env(rng)
+    if rng.random() < 0.15:
+        env["process_model"] = "session"  # all commands of the run in one long-lived simulated process
     tree = gen.gen_tree(rng, max_entries=7, max_depth=2, hostile=0.2, unique=True, min_files=1)
     env["tree"] = tree
     files = gen.tree_files(tree)
